@@ -380,6 +380,11 @@ type ReplayFile struct {
 	Detail   string            `json:"detail"`
 	Inputs   map[string]string `json:"inputs,omitempty"`
 	How      string            `json:"how_to_replay"`
+	// a violation that shows only after the cases that ran before it in the same worker process (state the library carries between
+	// calls): the replay re-runs that worker's whole share of the enumeration
+	HistoryDependent bool `json:"history_dependent,omitempty"`
+	Shard            int  `json:"shard,omitempty"`
+	NShards          int  `json:"nshards,omitempty"`
 }
 
 // Hash12 is a short stable hash.
